@@ -156,7 +156,10 @@ fn build_add(lhs: &AstNode, rhs: &AstNode) -> Result<Evaluator> {
       }
       Value::YearsAndMonthsDuration(lh) => {
         if let Value::YearsAndMonthsDuration(rh) = rhv {
-          Value::YearsAndMonthsDuration(FeelYearsAndMonthsDuration::new_m(lh.as_months() + rh.as_months()))
+          match lh.as_months().checked_add(rh.as_months()) {
+            Some(months) => Value::YearsAndMonthsDuration(FeelYearsAndMonthsDuration::new_m(months)),
+            None => value_null!("addition err 5"),
+          }
         } else {
           value_null!("addition err 4")
         }
@@ -1281,7 +1284,10 @@ fn build_neg(lhs: &AstNode) -> Result<Evaluator> {
     match lhv {
       Value::Number(lh) => Value::Number(-lh),
       Value::DaysAndTimeDuration(lh) => Value::DaysAndTimeDuration(-lh),
-      Value::YearsAndMonthsDuration(lh) => Value::YearsAndMonthsDuration(FeelYearsAndMonthsDuration::new_m(-lh.as_months())),
+      Value::YearsAndMonthsDuration(lh) => match lh.as_months().checked_neg() {
+        Some(months) => Value::YearsAndMonthsDuration(FeelYearsAndMonthsDuration::new_m(months)),
+        None => value_null!("arithmetic negation err 2"),
+      },
       _ => value_null!("arithmetic negation err 1"),
     }
   }))
